@@ -299,7 +299,7 @@ def legit_target(wire):
     try:
         return _legit_target(wire)
     except rc.Reject as e:
-        if e.reason in ('overrun', 'truncated') and e.where == 'model':
+        if e.reason == 'overrun' and e.where == 'model':
             return ('inner-overrun', None)
         return None
     except (KeyError, IndexError):
@@ -312,6 +312,9 @@ def _legit_target(wire):
         t = rc.read_var(b, 0, len(b))[0]
         nack = False
         if t == 0x64:
+            b0, vs0, ve0 = rc.outer(b, 0x64)
+            if not c07.lp_in_order([k[0] for k in rc.children(b0, vs0, ve0)]):
+                return ('ambiguous', None)    # header fields repeated / out of order: not stated which one counts
             lp = rc.strict_lp(b)
             if lp['fragmented'] or lp['fragment'] is None:
                 return None
